@@ -1407,10 +1407,9 @@ def check_parse_validation_order(ctx, res, config="all"):
         if ty.endswith("BigUint"):
             us = [i for i, t in b.calls() if i in b.live_blocks() and callee_name(t) == "starts_with" and any(core.op_const(a) == 95 for a in t["args"])]
             em = [i for i, t in b.calls() if i in b.live_blocks() and callee_name(t) == "is_empty"]
-            if not us:
-                errs.append("no rejection of a leading '_'")
-            if not em:
-                errs.append("no rejection of empty input")
+            if not us or not em:
+                # written with another idiom: the order cannot be judged here (the accept/reject language itself is not decided)
+                res.note("%s: leading-'_' / empty-input tests not recognised (idiom other than starts_with('_') / is_empty()); order not checked" % key)
             for i in us + em:
                 if not b.block_dominates(strips[0], i):
                     errs.append("the %s test is not applied to the sign-stripped string" % ("leading '_'" if i in us else "empty-input"))
